@@ -113,6 +113,19 @@ def andNot (a b : Nat) : Nat := a ^^^ (a &&& b)
 
 def isDirType (t : Bytes) : Bool := t == T.dir || t == T.implicitDir
 
+-- io/fs.FileMode keeps these three outside the low twelve bits
+def goSetuid : Nat := 2 ^ 23
+def goSetgid : Nat := 2 ^ 22
+def goSticky : Nat := 2 ^ 20
+
+/-- files.unixModeBits: a mode read from the file system, with set-user-ID, set-group-ID and sticky moved to where a
+    mode given in the configuration has them (04000, 02000, 01000) -/
+def unixModeBits (m : Nat) : Nat :=
+  andNot m (goSetuid ||| goSetgid ||| goSticky)
+    ||| (if m &&& goSetuid != 0 then 0o4000 else 0)
+    ||| (if m &&& goSetgid != 0 then 0o2000 else 0)
+    ||| (if m &&& goSticky != 0 then 0o1000 else 0)
+
 /-- the mtime WithFileInfoDefaults settles on: the explicit one, else the package mtime, else – when
     the source was stat-ed – its on-disk mtime, else the package mtime again -/
 def pickMtime (explicit pkgMtime : Int) (statMtime : Option Int) : Int :=
@@ -134,7 +147,7 @@ def withDefaults (O : Oracle) (umask : Nat) (mtime : Int) (c : Content) : Conten
   -- only stat the source when more information is needed
   let st : Option Stat := if c.src ≠ [] && !complete then O.stat c.src else none
   let mode := match st with
-    | some s => if mode == 0 then andNot s.mode umask else mode
+    | some s => if mode == 0 then andNot (unixModeBits s.mode) umask else mode
     | none => mode
   let size := match st with
     | some s => s.size
@@ -252,7 +265,7 @@ def treeBase (umask : Nat) (tree : Content) (e : WalkEnt) : Content :=
   match e.kind with
   | .dir =>
     { type := if ownedByFs (normDir destination) then T.implicitDir else T.dir, dst := normDir destination,
-      info := some { owner := og.1, group := og.2, mode := andNot e.mode umask, mtime := e.mtime } }
+      info := some { owner := og.1, group := og.2, mode := andNot (unixModeBits e.mode) umask, mtime := e.mtime } }
   | .symlink =>
     { type := T.symlink, src := e.link, dst := normFile destination,
       info := some { owner := og.1, group := og.2 } }
